@@ -745,9 +745,12 @@ theorem exec_BInv {c : Cfg} (hg : good c = true) {s s' : State} {o : Op}
     · cases h; exact ⟨hi.acct, hi.bonded, hi.notBonded, hi.allocated, hi.paid, hi.gain⟩
   | transfer f t v x =>
     simp only [State.exec] at h
+    rw [transferTx_eq hg] at h
     exact transferOp_BInv hg hi h
   | transferFrom sp f t v x =>
     simp only [State.exec] at h
+    rw [transferFromTx_eq hg] at h
+    simp only [State.transferFromRef] at h
     split at h
     · cases h
     · split at h
